@@ -54,10 +54,6 @@ theorem ellipsoidAabb_fixed_eq (A : Pose ℝ) (radii : V) :
 
 /-! ### the code as it is -/
 
-theorem divChecked_ok {a b : ℝ} (h : b ≠ 0) : divChecked a b = .ok (a / b) := by
-  unfold divChecked
-  rw [if_neg h]
-
 /-- for a unit column and a positive radius the normalise-and-rescale statements are the
 identity on `col * r`; neither `sqrtNeg` nor `divZero` can occur -/
 theorem ellipsoidColumn_ok {col : V} (h : V3.dot col col = 1) {r : ℝ} (hr : 0 < r) :
